@@ -233,10 +233,16 @@ func fieldEscapes(v ssa.Value, fld int, home *ssa.Function, depth int, seen map[
 type pstate struct {
 	vals  map[ssa.Value]Abs
 	cells map[cellKey]Abs
+	// alias: a phi whose value on this path is the given incoming value, about which nothing was
+	// known when the merge was entered; what is learnt about the phi later is learnt about that value
+	alias map[ssa.Value]ssa.Value
 }
 
 func (s *pstate) clone() *pstate {
-	n := &pstate{vals: make(map[ssa.Value]Abs, len(s.vals)), cells: make(map[cellKey]Abs, len(s.cells))}
+	n := &pstate{vals: make(map[ssa.Value]Abs, len(s.vals)), cells: make(map[cellKey]Abs, len(s.cells)), alias: make(map[ssa.Value]ssa.Value, len(s.alias))}
+	for k, v := range s.alias {
+		n.alias[k] = v
+	}
 	for k, v := range s.vals {
 		n.vals[k] = v
 	}
@@ -257,6 +263,9 @@ func (s *pstate) key() string {
 		if v != Unknown {
 			ks = append(ks, fmt.Sprintf("*%s%s=%d", k.root.Name(), k.path, v))
 		}
+	}
+	for k, v := range s.alias {
+		ks = append(ks, fmt.Sprintf("%s~%s", k.Name(), v.Name()))
 	}
 	sort.Strings(ks)
 	return strings.Join(ks, ",")
@@ -451,6 +460,11 @@ func (e *Explorer) Run(start Point) []PathExit {
 			for _, i := range nb.Instrs {
 				if v, ok := i.(ssa.Value); ok {
 					delete(st.vals, v)
+					for k, tgt := range st.alias {
+						if tgt == v || k == v {
+							delete(st.alias, k)
+						}
+					}
 				}
 			}
 			pre := st.clone()
@@ -469,6 +483,11 @@ func (e *Explorer) Run(start Point) []PathExit {
 					}
 					if a != Unknown {
 						st.vals[ph] = a
+						delete(st.alias, ph)
+					} else if st.alias != nil {
+						if _, isConst := ev.(*ssa.Const); !isConst {
+							st.alias[ph] = ev
+						}
 					}
 				}
 			}
@@ -508,7 +527,7 @@ func (e *Explorer) Run(start Point) []PathExit {
 			}
 		}
 	}
-	walk(start.Block, start.Index, &pstate{vals: map[ssa.Value]Abs{}, cells: map[cellKey]Abs{}}, nil, true)
+	walk(start.Block, start.Index, &pstate{vals: map[ssa.Value]Abs{}, cells: map[cellKey]Abs{}, alias: map[ssa.Value]ssa.Value{}}, nil, true)
 	return exits
 }
 
@@ -536,6 +555,14 @@ func (e *Explorer) learn(cond ssa.Value, a Abs, s *pstate) {
 			if r := ResolveLoad(y); r != y {
 				s.vals[r] = n
 			}
+			for depth, q := 0, y; depth < 4; depth++ {
+				al, ok := s.alias[q]
+				if !ok {
+					break
+				}
+				s.vals[al] = n
+				q = al
+			}
 			if u, ok := y.(*ssa.UnOp); ok && u.Op == token.MUL {
 				if ck, isBool, ok := e.cell(u.X); ok && !isBool {
 					s.cells[ck] = n
@@ -545,6 +572,14 @@ func (e *Explorer) learn(cond ssa.Value, a Abs, s *pstate) {
 		}
 	}
 	s.vals[cond] = a
+	for depth, q := 0, cond; depth < 4; depth++ {
+		al, ok := s.alias[q]
+		if !ok {
+			break
+		}
+		s.vals[al] = a
+		q = al
+	}
 }
 
 func condString(v ssa.Value) string {
